@@ -20,7 +20,8 @@ CONSTANTS
   PeerMenu,   \* which kinds of texts the peer may send: subset of {"resp","notif","close","mnotif","array","garbage","foreign","dup"}
   MaxPeer,    \* bound on the number of texts the peer sends
   MaxPush,    \* bound on the payload counter of subscription notifications
-  Faults,     \* subset of {"sendErr","recvErr","peerClose"} that the environment may inject (once)
+  Faults,     \* subset of {"sendErr","recvErr","peerClose"} that the environment may inject
+  MaxFaults,  \* how many of them in one behaviour (2: the sending and the receiving half both fail)
   MaxArr,     \* longest array the peer sends
   ArrMenu,    \* element kinds allowed inside arrays: subset of {"resp","notif","close","mnotif"}
   Abandon,    \* BOOLEAN: may the application give futures up before they return (timeouts, select!)
@@ -410,8 +411,11 @@ RtRecv ==
 -----------------------------------------------------------------------------
 (* ---------------------------------- faults and shutdown: mod.rs:905-949, 961-1024, 1026-1039 ---------------------------------- *)
 
+(* up to MaxFaults faults per connection, at most one of them on the receiving side: both halves of a broken transport may report *)
 InjectFault(f) ==
-  /\ f \in Faults /\ fault = {} /\ fault' = {f}
+  /\ f \in Faults /\ f \notin fault /\ Cardinality(fault) < MaxFaults
+  /\ (f \in {"recvErr", "peerClose"} => fault \cap {"recvErr", "peerClose"} = {})
+  /\ fault' = fault \cup {f}
   /\ UNCHANGED <<idCtr, fe, toBack, req, subIdx, bat, stream, seen, unsubSent, inq, nPeer, nTok, pushed>> /\ UNCHANGED shutVars
 
 (* the send task's next transport send fails: the message was taken and registered, then `break Err(Transport)` *)
